@@ -148,8 +148,19 @@ mod vharness {
     fn finite() -> f64 { let x: f64 = kani::any(); kani::assume(x.is_finite()); x }
     const STRS: [&str; 4] = ["", "a", "ab", "b"];
     /// tag: 0 null 1 bool 2 number 3 string 4 function 5 (empty) array 6 object ; returns (value, tag, payload)
-    fn any_prim(allow_fn: bool) -> (ValueData<'static>, u8, f64) {
-        let tag: u8 = kani::any(); kani::assume(tag <= 4); if !allow_fn { kani::assume(tag != 4); }
+    fn any_prim(allow_fn: bool) -> (ValueData<'static>, u8, f64) { any_prim2(allow_fn, true) }
+    fn any_prim2(allow_fn: bool, allow_str: bool) -> (ValueData<'static>, u8, f64) {
+        let tag: u8 = kani::any(); kani::assume(tag <= 4); if !allow_fn { kani::assume(tag != 4); } if !allow_str { kani::assume(tag != 3); }
+        match tag {
+            0 => (ValueData::Null, 0, 0.0),
+            1 => { let b: bool = kani::any(); (ValueData::Bool(b), 1, if b { 1.0 } else { 0.0 }) }
+            2 => { let x = finite(); (ValueData::Number(x), 2, x) }
+            3 => { let i: usize = kani::any(); kani::assume(i < 4); (ValueData::String(STRS[i].into()), 3, i as f64) }
+            _ => (ValueData::Function(Gc::new(FuncData(0, PhantomData))), 4, 0.0),
+        }
+    }
+    /// a value of the given (CONCRETE) type tag with any payload
+    fn prim_of(tag: u8) -> (ValueData<'static>, u8, f64) {
         match tag {
             0 => (ValueData::Null, 0, 0.0),
             1 => { let b: bool = kani::any(); (ValueData::Bool(b), 1, if b { 1.0 } else { 0.0 }) }
@@ -163,12 +174,11 @@ mod vharness {
                     _ => ValueData::Function(Gc::new(FuncData(0, PhantomData))) }
     }
 
-    //@harness props=C08,C01 strength=proof clause="== on primitives, for every pair of null / boolean / finite number / string / function values: true exactly when both have the same type and the same payload (numbers by IEEE equality, so -0 == 0), false for different types, an error for two functions; symmetric; pops two values, pushes one boolean, schedules nothing" timeout=900
-    #[kani::proof]
-    #[kani::unwind(8)]
-    fn equals_primitives_contract() {
-        let (a, ta, pa) = any_prim(true);
-        let (b, tb, pb) = any_prim(true);
+    // one instance per pair of type tags (concrete), payloads symbolic: with symbolic tags CBMC explores the
+    // array and object branches of the arm on garbage and every instance took 6 min (measured)
+    fn equals_prims(ta_c: u8, tb_c: u8) {
+        let (a, ta, pa) = prim_of(ta_c);
+        let (b, tb, pb) = prim_of(tb_c);
         let mut prog = Program(PhantomData);
         let mut e = ev(&mut prog);
         e.value_stack.push(a); e.value_stack.push(b);
@@ -188,13 +198,110 @@ mod vharness {
         }
         core::mem::forget(e);
     }
-
-    //@harness props=C08,C01,C06 strength=proof clause="< on primitives, for every pair: two finite numbers give their IEEE ordering (exactly one of less / equal / greater; equal exactly when == holds; partial_cmp never panics under the finiteness invariant); two strings give their str ordering; null, boolean, object, function pairs and mixed types give the specific 'cannot be ordered' error, never an answer" timeout=900
+    //@harness props=C08,C01 quickfor=C08,C10,C17 strength=proof clause="== on primitives for every pair of null / boolean / finite number / string / function values: true exactly when both have the same type and the same payload (numbers by IEEE equality, so -0 == 0), false for different types, an error for two functions; symmetric; pops two values, pushes one boolean, schedules nothing" timeout=900
     #[kani::proof]
     #[kani::unwind(8)]
-    fn compare_primitives_contract() {
-        let (a, ta, pa) = any_prim(true);
-        let (b, tb, pb) = any_prim(true);
+    fn equals_null_null() { equals_prims(0, 0); }
+    //@harness props=C08,C01 quickfor=C08,C10,C17 strength=proof tier=thorough clause="== on primitives for every pair of null / boolean / finite number / string / function values: true exactly when both have the same type and the same payload (numbers by IEEE equality, so -0 == 0), false for different types, an error for two functions; symmetric; pops two values, pushes one boolean, schedules nothing" timeout=900
+    #[kani::proof]
+    #[kani::unwind(8)]
+    fn equals_null_bool() { equals_prims(0, 1); }
+    //@harness props=C08,C01 quickfor=C08,C10,C17 strength=proof clause="== on primitives for every pair of null / boolean / finite number / string / function values: true exactly when both have the same type and the same payload (numbers by IEEE equality, so -0 == 0), false for different types, an error for two functions; symmetric; pops two values, pushes one boolean, schedules nothing" timeout=900
+    #[kani::proof]
+    #[kani::unwind(8)]
+    fn equals_null_number() { equals_prims(0, 2); }
+    //@harness props=C08,C01 quickfor=C08,C10,C17 strength=proof clause="== on primitives for every pair of null / boolean / finite number / string / function values: true exactly when both have the same type and the same payload (numbers by IEEE equality, so -0 == 0), false for different types, an error for two functions; symmetric; pops two values, pushes one boolean, schedules nothing" timeout=900
+    #[kani::proof]
+    #[kani::unwind(8)]
+    fn equals_null_string() { equals_prims(0, 3); }
+    //@harness props=C08,C01 quickfor=C08,C10,C17 strength=proof tier=thorough clause="== on primitives for every pair of null / boolean / finite number / string / function values: true exactly when both have the same type and the same payload (numbers by IEEE equality, so -0 == 0), false for different types, an error for two functions; symmetric; pops two values, pushes one boolean, schedules nothing" timeout=900
+    #[kani::proof]
+    #[kani::unwind(8)]
+    fn equals_null_function() { equals_prims(0, 4); }
+    //@harness props=C08,C01 quickfor=C08,C10,C17 strength=proof tier=thorough clause="== on primitives for every pair of null / boolean / finite number / string / function values: true exactly when both have the same type and the same payload (numbers by IEEE equality, so -0 == 0), false for different types, an error for two functions; symmetric; pops two values, pushes one boolean, schedules nothing" timeout=900
+    #[kani::proof]
+    #[kani::unwind(8)]
+    fn equals_bool_null() { equals_prims(1, 0); }
+    //@harness props=C08,C01 quickfor=C08,C10,C17 strength=proof clause="== on primitives for every pair of null / boolean / finite number / string / function values: true exactly when both have the same type and the same payload (numbers by IEEE equality, so -0 == 0), false for different types, an error for two functions; symmetric; pops two values, pushes one boolean, schedules nothing" timeout=900
+    #[kani::proof]
+    #[kani::unwind(8)]
+    fn equals_bool_bool() { equals_prims(1, 1); }
+    //@harness props=C08,C01 quickfor=C08,C10,C17 strength=proof clause="== on primitives for every pair of null / boolean / finite number / string / function values: true exactly when both have the same type and the same payload (numbers by IEEE equality, so -0 == 0), false for different types, an error for two functions; symmetric; pops two values, pushes one boolean, schedules nothing" timeout=900
+    #[kani::proof]
+    #[kani::unwind(8)]
+    fn equals_bool_number() { equals_prims(1, 2); }
+    //@harness props=C08,C01 quickfor=C08,C10,C17 strength=proof clause="== on primitives for every pair of null / boolean / finite number / string / function values: true exactly when both have the same type and the same payload (numbers by IEEE equality, so -0 == 0), false for different types, an error for two functions; symmetric; pops two values, pushes one boolean, schedules nothing" timeout=900
+    #[kani::proof]
+    #[kani::unwind(8)]
+    fn equals_bool_string() { equals_prims(1, 3); }
+    //@harness props=C08,C01 quickfor=C08,C10,C17 strength=proof tier=thorough clause="== on primitives for every pair of null / boolean / finite number / string / function values: true exactly when both have the same type and the same payload (numbers by IEEE equality, so -0 == 0), false for different types, an error for two functions; symmetric; pops two values, pushes one boolean, schedules nothing" timeout=900
+    #[kani::proof]
+    #[kani::unwind(8)]
+    fn equals_bool_function() { equals_prims(1, 4); }
+    //@harness props=C08,C01 quickfor=C08,C10,C17 strength=proof clause="== on primitives for every pair of null / boolean / finite number / string / function values: true exactly when both have the same type and the same payload (numbers by IEEE equality, so -0 == 0), false for different types, an error for two functions; symmetric; pops two values, pushes one boolean, schedules nothing" timeout=900
+    #[kani::proof]
+    #[kani::unwind(8)]
+    fn equals_number_null() { equals_prims(2, 0); }
+    //@harness props=C08,C01 quickfor=C08,C10,C17 strength=proof clause="== on primitives for every pair of null / boolean / finite number / string / function values: true exactly when both have the same type and the same payload (numbers by IEEE equality, so -0 == 0), false for different types, an error for two functions; symmetric; pops two values, pushes one boolean, schedules nothing" timeout=900
+    #[kani::proof]
+    #[kani::unwind(8)]
+    fn equals_number_bool() { equals_prims(2, 1); }
+    //@harness props=C08,C01 quickfor=C08,C10,C17 strength=proof clause="== on primitives for every pair of null / boolean / finite number / string / function values: true exactly when both have the same type and the same payload (numbers by IEEE equality, so -0 == 0), false for different types, an error for two functions; symmetric; pops two values, pushes one boolean, schedules nothing" timeout=900
+    #[kani::proof]
+    #[kani::unwind(8)]
+    fn equals_number_number() { equals_prims(2, 2); }
+    //@harness props=C08,C01 quickfor=C08,C10,C17 strength=proof clause="== on primitives for every pair of null / boolean / finite number / string / function values: true exactly when both have the same type and the same payload (numbers by IEEE equality, so -0 == 0), false for different types, an error for two functions; symmetric; pops two values, pushes one boolean, schedules nothing" timeout=900
+    #[kani::proof]
+    #[kani::unwind(8)]
+    fn equals_number_string() { equals_prims(2, 3); }
+    //@harness props=C08,C01 quickfor=C08,C10,C17 strength=proof clause="== on primitives for every pair of null / boolean / finite number / string / function values: true exactly when both have the same type and the same payload (numbers by IEEE equality, so -0 == 0), false for different types, an error for two functions; symmetric; pops two values, pushes one boolean, schedules nothing" timeout=900
+    #[kani::proof]
+    #[kani::unwind(8)]
+    fn equals_number_function() { equals_prims(2, 4); }
+    //@harness props=C08,C01 quickfor=C08,C10,C17 strength=proof clause="== on primitives for every pair of null / boolean / finite number / string / function values: true exactly when both have the same type and the same payload (numbers by IEEE equality, so -0 == 0), false for different types, an error for two functions; symmetric; pops two values, pushes one boolean, schedules nothing" timeout=900
+    #[kani::proof]
+    #[kani::unwind(8)]
+    fn equals_string_null() { equals_prims(3, 0); }
+    //@harness props=C08,C01 quickfor=C08,C10,C17 strength=proof clause="== on primitives for every pair of null / boolean / finite number / string / function values: true exactly when both have the same type and the same payload (numbers by IEEE equality, so -0 == 0), false for different types, an error for two functions; symmetric; pops two values, pushes one boolean, schedules nothing" timeout=900
+    #[kani::proof]
+    #[kani::unwind(8)]
+    fn equals_string_bool() { equals_prims(3, 1); }
+    //@harness props=C08,C01 quickfor=C08,C10,C17 strength=proof clause="== on primitives for every pair of null / boolean / finite number / string / function values: true exactly when both have the same type and the same payload (numbers by IEEE equality, so -0 == 0), false for different types, an error for two functions; symmetric; pops two values, pushes one boolean, schedules nothing" timeout=900
+    #[kani::proof]
+    #[kani::unwind(8)]
+    fn equals_string_number() { equals_prims(3, 2); }
+    //@harness props=C08,C01 quickfor=C08,C10,C17 strength=proof clause="== on primitives for every pair of null / boolean / finite number / string / function values: true exactly when both have the same type and the same payload (numbers by IEEE equality, so -0 == 0), false for different types, an error for two functions; symmetric; pops two values, pushes one boolean, schedules nothing" timeout=900
+    #[kani::proof]
+    #[kani::unwind(8)]
+    fn equals_string_string() { equals_prims(3, 3); }
+    //@harness props=C08,C01 quickfor=C08,C10,C17 strength=proof clause="== on primitives for every pair of null / boolean / finite number / string / function values: true exactly when both have the same type and the same payload (numbers by IEEE equality, so -0 == 0), false for different types, an error for two functions; symmetric; pops two values, pushes one boolean, schedules nothing" timeout=900
+    #[kani::proof]
+    #[kani::unwind(8)]
+    fn equals_string_function() { equals_prims(3, 4); }
+    //@harness props=C08,C01 quickfor=C08,C10,C17 strength=proof tier=thorough clause="== on primitives for every pair of null / boolean / finite number / string / function values: true exactly when both have the same type and the same payload (numbers by IEEE equality, so -0 == 0), false for different types, an error for two functions; symmetric; pops two values, pushes one boolean, schedules nothing" timeout=900
+    #[kani::proof]
+    #[kani::unwind(8)]
+    fn equals_function_null() { equals_prims(4, 0); }
+    //@harness props=C08,C01 quickfor=C08,C10,C17 strength=proof tier=thorough clause="== on primitives for every pair of null / boolean / finite number / string / function values: true exactly when both have the same type and the same payload (numbers by IEEE equality, so -0 == 0), false for different types, an error for two functions; symmetric; pops two values, pushes one boolean, schedules nothing" timeout=900
+    #[kani::proof]
+    #[kani::unwind(8)]
+    fn equals_function_bool() { equals_prims(4, 1); }
+    //@harness props=C08,C01 quickfor=C08,C10,C17 strength=proof clause="== on primitives for every pair of null / boolean / finite number / string / function values: true exactly when both have the same type and the same payload (numbers by IEEE equality, so -0 == 0), false for different types, an error for two functions; symmetric; pops two values, pushes one boolean, schedules nothing" timeout=900
+    #[kani::proof]
+    #[kani::unwind(8)]
+    fn equals_function_number() { equals_prims(4, 2); }
+    //@harness props=C08,C01 quickfor=C08,C10,C17 strength=proof clause="== on primitives for every pair of null / boolean / finite number / string / function values: true exactly when both have the same type and the same payload (numbers by IEEE equality, so -0 == 0), false for different types, an error for two functions; symmetric; pops two values, pushes one boolean, schedules nothing" timeout=900
+    #[kani::proof]
+    #[kani::unwind(8)]
+    fn equals_function_string() { equals_prims(4, 3); }
+    //@harness props=C08,C01 quickfor=C08,C10,C17 strength=proof clause="== on primitives for every pair of null / boolean / finite number / string / function values: true exactly when both have the same type and the same payload (numbers by IEEE equality, so -0 == 0), false for different types, an error for two functions; symmetric; pops two values, pushes one boolean, schedules nothing" timeout=900
+    #[kani::proof]
+    #[kani::unwind(8)]
+    fn equals_function_function() { equals_prims(4, 4); }
+
+    fn compare_prims(ta_c: u8, tb_c: u8) {
+        let (a, ta, pa) = prim_of(ta_c);
+        let (b, tb, pb) = prim_of(tb_c);
         let mut prog = Program(PhantomData);
         let mut e = ev(&mut prog);
         e.value_stack.push(a); e.value_stack.push(b);
@@ -202,24 +309,24 @@ mod vharness {
         if ta == 2 && tb == 2 {
             assert!(r.is_ok() && e.cmp_ord_stack.len() == 1 && e.value_stack.is_empty() && e.state_stack.is_empty() && e.bool_stack.is_empty(), "C08,C01:cmp:compare-stack-effect");
             let o = e.cmp_ord_stack[0];
-            assert!((o == Ordering::Less) == (pa < pb) && (o == Ordering::Greater) == (pa > pb) && (o == Ordering::Equal) == (pa == pb), "C08:cmp:number-order-is-the-ieee-order");
-            assert!((pa < pb) as u8 + (pa == pb) as u8 + (pa > pb) as u8 == 1, "C08:cmp:exactly-one-of-lt-eq-gt-on-finite-numbers");
+            assert!((o == Ordering::Less) == (pa < pb) && (o == Ordering::Greater) == (pa > pb) && (o == Ordering::Equal) == (pa == pb), "C08,C17:cmp:number-order-is-the-ieee-order");
+            assert!((pa < pb) as u8 + (pa == pb) as u8 + (pa > pb) as u8 == 1, "C08,C17:cmp:exactly-one-of-lt-eq-gt-on-finite-numbers");
         } else if ta == 3 && tb == 3 {
             assert!(r.is_ok() && e.cmp_ord_stack.len() == 1, "C08,C01:cmp:compare-stack-effect");
-            assert!(e.cmp_ord_stack[0] == STRS[pa as usize].cmp(STRS[pb as usize]), "C08:cmp:string-order-is-the-str-order");
+            assert!(e.cmp_ord_stack[0] == STRS[pa as usize].cmp(STRS[pb as usize]), "C08,C17:cmp:string-order-is-the-str-order");
         } else {
             match r {
-                Ok(()) => assert!(false, "C08:cmp:unordered-values-are-an-error-not-an-answer"),
+                Ok(()) => assert!(false, "C08,C17:cmp:unordered-values-are-an-error-not-an-answer"),
                 Err(er) => {
-                    assert!(e.cmp_ord_stack.is_empty() && e.bool_stack.is_empty(), "C08:cmp:no-answer-is-left-behind-on-error");
+                    assert!(e.cmp_ord_stack.is_empty() && e.bool_stack.is_empty(), "C08,C17:cmp:no-answer-is-left-behind-on-error");
                     match er.kind {
-                        EvalErrorKind::CompareNullInequality => assert!(ta == 0 && tb == 0, "C08:cmp:error-kind-matches-the-operand-types"),
-                        EvalErrorKind::CompareBooleanInequality => assert!(ta == 1 && tb == 1, "C08:cmp:error-kind-matches-the-operand-types"),
-                        EvalErrorKind::CompareFunctions => assert!(ta == 4 && tb == 4, "C08:cmp:error-kind-matches-the-operand-types"),
-                        EvalErrorKind::CompareObjectInequality => assert!(false, "C08:cmp:error-kind-matches-the-operand-types"),
+                        EvalErrorKind::CompareNullInequality => assert!(ta == 0 && tb == 0, "C08,C17:cmp:error-kind-matches-the-operand-types"),
+                        EvalErrorKind::CompareBooleanInequality => assert!(ta == 1 && tb == 1, "C08,C17:cmp:error-kind-matches-the-operand-types"),
+                        EvalErrorKind::CompareFunctions => assert!(ta == 4 && tb == 4, "C08,C17:cmp:error-kind-matches-the-operand-types"),
+                        EvalErrorKind::CompareObjectInequality => assert!(false, "C08,C17:cmp:error-kind-matches-the-operand-types"),
                         EvalErrorKind::CompareDifferentTypesInequality { lhs_type, rhs_type } => {
-                            assert!(ta != tb, "C08:cmp:error-kind-matches-the-operand-types");
-                            assert!(lhs_type as u8 != rhs_type as u8, "C08:cmp:mixed-type-error-names-both-types");
+                            assert!(ta != tb, "C08,C17:cmp:error-kind-matches-the-operand-types");
+                            assert!(lhs_type as u8 != rhs_type as u8, "C08,C17:cmp:mixed-type-error-names-both-types");
                         }
                     }
                 }
@@ -227,8 +334,108 @@ mod vharness {
         }
         core::mem::forget(e);
     }
+    //@harness props=C08,C01,C06,C17 quickfor=C08,C10,C17 strength=proof clause="< on primitives, this instance: null < null; the 25 instances cover every pair: two finite numbers give their IEEE ordering (exactly one of less / equal / greater; equal exactly when == holds; partial_cmp never panics under the finiteness invariant); two strings give their str ordering; null, boolean, object, function pairs and mixed types give the specific 'cannot be ordered' error, never an answer" timeout=900
+    #[kani::proof]
+    #[kani::unwind(8)]
+    fn compare_null_null() { compare_prims(0, 0); }
+    //@harness props=C08,C01,C06,C17 quickfor=C08,C10,C17 strength=proof tier=thorough clause="< on primitives, this instance: null < bool; the 25 instances cover every pair: two finite numbers give their IEEE ordering (exactly one of less / equal / greater; equal exactly when == holds; partial_cmp never panics under the finiteness invariant); two strings give their str ordering; null, boolean, object, function pairs and mixed types give the specific 'cannot be ordered' error, never an answer" timeout=900
+    #[kani::proof]
+    #[kani::unwind(8)]
+    fn compare_null_bool() { compare_prims(0, 1); }
+    //@harness props=C08,C01,C06,C17 quickfor=C08,C10,C17 strength=proof clause="< on primitives, this instance: null < number; the 25 instances cover every pair: two finite numbers give their IEEE ordering (exactly one of less / equal / greater; equal exactly when == holds; partial_cmp never panics under the finiteness invariant); two strings give their str ordering; null, boolean, object, function pairs and mixed types give the specific 'cannot be ordered' error, never an answer" timeout=900
+    #[kani::proof]
+    #[kani::unwind(8)]
+    fn compare_null_number() { compare_prims(0, 2); }
+    //@harness props=C08,C01,C06,C17 quickfor=C08,C10,C17 strength=proof clause="< on primitives, this instance: null < string; the 25 instances cover every pair: two finite numbers give their IEEE ordering (exactly one of less / equal / greater; equal exactly when == holds; partial_cmp never panics under the finiteness invariant); two strings give their str ordering; null, boolean, object, function pairs and mixed types give the specific 'cannot be ordered' error, never an answer" timeout=900
+    #[kani::proof]
+    #[kani::unwind(8)]
+    fn compare_null_string() { compare_prims(0, 3); }
+    //@harness props=C08,C01,C06,C17 quickfor=C08,C10,C17 strength=proof tier=thorough clause="< on primitives, this instance: null < function; the 25 instances cover every pair: two finite numbers give their IEEE ordering (exactly one of less / equal / greater; equal exactly when == holds; partial_cmp never panics under the finiteness invariant); two strings give their str ordering; null, boolean, object, function pairs and mixed types give the specific 'cannot be ordered' error, never an answer" timeout=900
+    #[kani::proof]
+    #[kani::unwind(8)]
+    fn compare_null_function() { compare_prims(0, 4); }
+    //@harness props=C08,C01,C06,C17 quickfor=C08,C10,C17 strength=proof tier=thorough clause="< on primitives, this instance: bool < null; the 25 instances cover every pair: two finite numbers give their IEEE ordering (exactly one of less / equal / greater; equal exactly when == holds; partial_cmp never panics under the finiteness invariant); two strings give their str ordering; null, boolean, object, function pairs and mixed types give the specific 'cannot be ordered' error, never an answer" timeout=900
+    #[kani::proof]
+    #[kani::unwind(8)]
+    fn compare_bool_null() { compare_prims(1, 0); }
+    //@harness props=C08,C01,C06,C17 quickfor=C08,C10,C17 strength=proof clause="< on primitives, this instance: bool < bool; the 25 instances cover every pair: two finite numbers give their IEEE ordering (exactly one of less / equal / greater; equal exactly when == holds; partial_cmp never panics under the finiteness invariant); two strings give their str ordering; null, boolean, object, function pairs and mixed types give the specific 'cannot be ordered' error, never an answer" timeout=900
+    #[kani::proof]
+    #[kani::unwind(8)]
+    fn compare_bool_bool() { compare_prims(1, 1); }
+    //@harness props=C08,C01,C06,C17 quickfor=C08,C10,C17 strength=proof clause="< on primitives, this instance: bool < number; the 25 instances cover every pair: two finite numbers give their IEEE ordering (exactly one of less / equal / greater; equal exactly when == holds; partial_cmp never panics under the finiteness invariant); two strings give their str ordering; null, boolean, object, function pairs and mixed types give the specific 'cannot be ordered' error, never an answer" timeout=900
+    #[kani::proof]
+    #[kani::unwind(8)]
+    fn compare_bool_number() { compare_prims(1, 2); }
+    //@harness props=C08,C01,C06,C17 quickfor=C08,C10,C17 strength=proof clause="< on primitives, this instance: bool < string; the 25 instances cover every pair: two finite numbers give their IEEE ordering (exactly one of less / equal / greater; equal exactly when == holds; partial_cmp never panics under the finiteness invariant); two strings give their str ordering; null, boolean, object, function pairs and mixed types give the specific 'cannot be ordered' error, never an answer" timeout=900
+    #[kani::proof]
+    #[kani::unwind(8)]
+    fn compare_bool_string() { compare_prims(1, 3); }
+    //@harness props=C08,C01,C06,C17 quickfor=C08,C10,C17 strength=proof tier=thorough clause="< on primitives, this instance: bool < function; the 25 instances cover every pair: two finite numbers give their IEEE ordering (exactly one of less / equal / greater; equal exactly when == holds; partial_cmp never panics under the finiteness invariant); two strings give their str ordering; null, boolean, object, function pairs and mixed types give the specific 'cannot be ordered' error, never an answer" timeout=900
+    #[kani::proof]
+    #[kani::unwind(8)]
+    fn compare_bool_function() { compare_prims(1, 4); }
+    //@harness props=C08,C01,C06,C17 quickfor=C08,C10,C17 strength=proof clause="< on primitives, this instance: number < null; the 25 instances cover every pair: two finite numbers give their IEEE ordering (exactly one of less / equal / greater; equal exactly when == holds; partial_cmp never panics under the finiteness invariant); two strings give their str ordering; null, boolean, object, function pairs and mixed types give the specific 'cannot be ordered' error, never an answer" timeout=900
+    #[kani::proof]
+    #[kani::unwind(8)]
+    fn compare_number_null() { compare_prims(2, 0); }
+    //@harness props=C08,C01,C06,C17 quickfor=C08,C10,C17 strength=proof clause="< on primitives, this instance: number < bool; the 25 instances cover every pair: two finite numbers give their IEEE ordering (exactly one of less / equal / greater; equal exactly when == holds; partial_cmp never panics under the finiteness invariant); two strings give their str ordering; null, boolean, object, function pairs and mixed types give the specific 'cannot be ordered' error, never an answer" timeout=900
+    #[kani::proof]
+    #[kani::unwind(8)]
+    fn compare_number_bool() { compare_prims(2, 1); }
+    //@harness props=C08,C01,C06,C17 quickfor=C08,C10,C17 strength=proof clause="< on primitives, this instance: number < number; the 25 instances cover every pair: two finite numbers give their IEEE ordering (exactly one of less / equal / greater; equal exactly when == holds; partial_cmp never panics under the finiteness invariant); two strings give their str ordering; null, boolean, object, function pairs and mixed types give the specific 'cannot be ordered' error, never an answer" timeout=900
+    #[kani::proof]
+    #[kani::unwind(8)]
+    fn compare_number_number() { compare_prims(2, 2); }
+    //@harness props=C08,C01,C06,C17 quickfor=C08,C10,C17 strength=proof clause="< on primitives, this instance: number < string; the 25 instances cover every pair: two finite numbers give their IEEE ordering (exactly one of less / equal / greater; equal exactly when == holds; partial_cmp never panics under the finiteness invariant); two strings give their str ordering; null, boolean, object, function pairs and mixed types give the specific 'cannot be ordered' error, never an answer" timeout=900
+    #[kani::proof]
+    #[kani::unwind(8)]
+    fn compare_number_string() { compare_prims(2, 3); }
+    //@harness props=C08,C01,C06,C17 quickfor=C08,C10,C17 strength=proof clause="< on primitives, this instance: number < function; the 25 instances cover every pair: two finite numbers give their IEEE ordering (exactly one of less / equal / greater; equal exactly when == holds; partial_cmp never panics under the finiteness invariant); two strings give their str ordering; null, boolean, object, function pairs and mixed types give the specific 'cannot be ordered' error, never an answer" timeout=900
+    #[kani::proof]
+    #[kani::unwind(8)]
+    fn compare_number_function() { compare_prims(2, 4); }
+    //@harness props=C08,C01,C06,C17 quickfor=C08,C10,C17 strength=proof clause="< on primitives, this instance: string < null; the 25 instances cover every pair: two finite numbers give their IEEE ordering (exactly one of less / equal / greater; equal exactly when == holds; partial_cmp never panics under the finiteness invariant); two strings give their str ordering; null, boolean, object, function pairs and mixed types give the specific 'cannot be ordered' error, never an answer" timeout=900
+    #[kani::proof]
+    #[kani::unwind(8)]
+    fn compare_string_null() { compare_prims(3, 0); }
+    //@harness props=C08,C01,C06,C17 quickfor=C08,C10,C17 strength=proof clause="< on primitives, this instance: string < bool; the 25 instances cover every pair: two finite numbers give their IEEE ordering (exactly one of less / equal / greater; equal exactly when == holds; partial_cmp never panics under the finiteness invariant); two strings give their str ordering; null, boolean, object, function pairs and mixed types give the specific 'cannot be ordered' error, never an answer" timeout=900
+    #[kani::proof]
+    #[kani::unwind(8)]
+    fn compare_string_bool() { compare_prims(3, 1); }
+    //@harness props=C08,C01,C06,C17 quickfor=C08,C10,C17 strength=proof clause="< on primitives, this instance: string < number; the 25 instances cover every pair: two finite numbers give their IEEE ordering (exactly one of less / equal / greater; equal exactly when == holds; partial_cmp never panics under the finiteness invariant); two strings give their str ordering; null, boolean, object, function pairs and mixed types give the specific 'cannot be ordered' error, never an answer" timeout=900
+    #[kani::proof]
+    #[kani::unwind(8)]
+    fn compare_string_number() { compare_prims(3, 2); }
+    //@harness props=C08,C01,C06,C17 quickfor=C08,C10,C17 strength=proof clause="< on primitives, this instance: string < string; the 25 instances cover every pair: two finite numbers give their IEEE ordering (exactly one of less / equal / greater; equal exactly when == holds; partial_cmp never panics under the finiteness invariant); two strings give their str ordering; null, boolean, object, function pairs and mixed types give the specific 'cannot be ordered' error, never an answer" timeout=900
+    #[kani::proof]
+    #[kani::unwind(8)]
+    fn compare_string_string() { compare_prims(3, 3); }
+    //@harness props=C08,C01,C06,C17 quickfor=C08,C10,C17 strength=proof clause="< on primitives, this instance: string < function; the 25 instances cover every pair: two finite numbers give their IEEE ordering (exactly one of less / equal / greater; equal exactly when == holds; partial_cmp never panics under the finiteness invariant); two strings give their str ordering; null, boolean, object, function pairs and mixed types give the specific 'cannot be ordered' error, never an answer" timeout=900
+    #[kani::proof]
+    #[kani::unwind(8)]
+    fn compare_string_function() { compare_prims(3, 4); }
+    //@harness props=C08,C01,C06,C17 quickfor=C08,C10,C17 strength=proof tier=thorough clause="< on primitives, this instance: function < null; the 25 instances cover every pair: two finite numbers give their IEEE ordering (exactly one of less / equal / greater; equal exactly when == holds; partial_cmp never panics under the finiteness invariant); two strings give their str ordering; null, boolean, object, function pairs and mixed types give the specific 'cannot be ordered' error, never an answer" timeout=900
+    #[kani::proof]
+    #[kani::unwind(8)]
+    fn compare_function_null() { compare_prims(4, 0); }
+    //@harness props=C08,C01,C06,C17 quickfor=C08,C10,C17 strength=proof tier=thorough clause="< on primitives, this instance: function < bool; the 25 instances cover every pair: two finite numbers give their IEEE ordering (exactly one of less / equal / greater; equal exactly when == holds; partial_cmp never panics under the finiteness invariant); two strings give their str ordering; null, boolean, object, function pairs and mixed types give the specific 'cannot be ordered' error, never an answer" timeout=900
+    #[kani::proof]
+    #[kani::unwind(8)]
+    fn compare_function_bool() { compare_prims(4, 1); }
+    //@harness props=C08,C01,C06,C17 quickfor=C08,C10,C17 strength=proof clause="< on primitives, this instance: function < number; the 25 instances cover every pair: two finite numbers give their IEEE ordering (exactly one of less / equal / greater; equal exactly when == holds; partial_cmp never panics under the finiteness invariant); two strings give their str ordering; null, boolean, object, function pairs and mixed types give the specific 'cannot be ordered' error, never an answer" timeout=900
+    #[kani::proof]
+    #[kani::unwind(8)]
+    fn compare_function_number() { compare_prims(4, 2); }
+    //@harness props=C08,C01,C06,C17 quickfor=C08,C10,C17 strength=proof clause="< on primitives, this instance: function < string; the 25 instances cover every pair: two finite numbers give their IEEE ordering (exactly one of less / equal / greater; equal exactly when == holds; partial_cmp never panics under the finiteness invariant); two strings give their str ordering; null, boolean, object, function pairs and mixed types give the specific 'cannot be ordered' error, never an answer" timeout=900
+    #[kani::proof]
+    #[kani::unwind(8)]
+    fn compare_function_string() { compare_prims(4, 3); }
+    //@harness props=C08,C01,C06,C17 quickfor=C08,C10,C17 strength=proof clause="< on primitives, this instance: function < function; the 25 instances cover every pair: two finite numbers give their IEEE ordering (exactly one of less / equal / greater; equal exactly when == holds; partial_cmp never panics under the finiteness invariant); two strings give their str ordering; null, boolean, object, function pairs and mixed types give the specific 'cannot be ordered' error, never an answer" timeout=900
+    #[kani::proof]
+    #[kani::unwind(8)]
+    fn compare_function_function() { compare_prims(4, 4); }
 
-    //@harness props=C08 strength=proof clause="the number order is transitive and total on finite doubles: a <= b and b <= c imply a <= c, through the real CompareValue arm"
+    //@harness props=C08,C17 strength=proof clause="the number order is transitive and total on finite doubles: a <= b and b <= c imply a <= c, through the real CompareValue arm"
     #[kani::proof]
     #[kani::unwind(8)]
     fn compare_numbers_transitive() {
@@ -240,8 +447,8 @@ mod vharness {
         e.value_stack.push(ValueData::Number(a)); e.value_stack.push(ValueData::Number(c)); let _ = e.arm_compare_value();
         assert!(e.cmp_ord_stack.len() == 3, "C08,C01:cmp:compare-stack-effect");
         let (ab, bc, ac) = (e.cmp_ord_stack[0], e.cmp_ord_stack[1], e.cmp_ord_stack[2]);
-        if ab != Ordering::Greater && bc != Ordering::Greater { assert!(ac != Ordering::Greater, "C08:cmp:number-order-is-transitive"); }
-        if ab == Ordering::Less && bc != Ordering::Greater { assert!(ac == Ordering::Less, "C08:cmp:number-order-is-transitive"); }
+        if ab != Ordering::Greater && bc != Ordering::Greater { assert!(ac != Ordering::Greater, "C08,C17:cmp:number-order-is-transitive"); }
+        if ab == Ordering::Less && bc != Ordering::Greater { assert!(ac == Ordering::Less, "C08,C17:cmp:number-order-is-transitive"); }
         core::mem::forget(e);
     }
 
@@ -278,7 +485,7 @@ mod vharness {
              && is_do_thunk(&s[base + 3], 2, index) && is_do_thunk(&s[base + 4], 1, index)
     }
 
-    //@harness props=C08,C01,C10 strength=proof clause="ordering of two arrays of ANY lengths (entry): both empty => equal; only the left empty => less; only the right empty => greater; otherwise exactly: evaluate element 0 of both, compare them, then continue with CompareArray at index 0 - one trace item pushed and counted" timeout=900 replay=cmp_arrays
+    //@harness props=C08,C01,C10,C17 quickfor=C08,C10,C17 strength=proof clause="ordering of two arrays of ANY lengths (entry): both empty => equal; only the left empty => less; only the right empty => greater; otherwise exactly: evaluate element 0 of both, compare them, then continue with CompareArray at index 0 - one trace item pushed and counted" timeout=900 replay=cmp_arrays
     #[kani::proof]
     #[kani::unwind(8)]
     fn compare_array_entry_contract() {
@@ -289,18 +496,18 @@ mod vharness {
         let r = e.arm_compare_value();
         assert!(r.is_ok() && e.value_stack.is_empty() && e.bool_stack.is_empty(), "C08,C01:cmp:compare-stack-effect");
         if la == 0 || lb == 0 {
-            assert!(e.state_stack.is_empty() && e.cmp_ord_stack.len() == 1, "C08:cmp:empty-array-decides-immediately");
+            assert!(e.state_stack.is_empty() && e.cmp_ord_stack.len() == 1, "C08,C17:cmp:empty-array-decides-immediately");
             let want = if la == 0 && lb == 0 { Ordering::Equal } else if la == 0 { Ordering::Less } else { Ordering::Greater };
-            assert!(e.cmp_ord_stack[0] == want, "C08:cmp:a-proper-prefix-is-less-empty-array-cases");
+            assert!(e.cmp_ord_stack[0] == want, "C08,C17:cmp:a-proper-prefix-is-less-empty-array-cases");
         } else {
-            assert!(e.cmp_ord_stack.is_empty(), "C08:cmp:no-answer-before-an-element-is-compared");
-            assert!(scheduled_element(&e, 0, 0, true), "C08:cmp:first-elements-are-evaluated-and-compared-next");
+            assert!(e.cmp_ord_stack.is_empty(), "C08,C17:cmp:no-answer-before-an-element-is-compared");
+            assert!(scheduled_element(&e, 0, 0, true), "C08,C17:cmp:first-elements-are-evaluated-and-compared-next");
             assert!(e.stack_trace_len == 1, "C10:cmp:trace-item-is-counted");
         }
         core::mem::forget(e);
     }
 
-    //@harness props=C08,C01,C10 strength=proof clause="ordering of two arrays of ANY lengths (step at ANY index, after elements 0..index compared equal so far): a non-equal element decides with that ordering and schedules nothing (later elements are never evaluated); an equal element decides equal / less / greater when it was the last of both / of the left only / of the right only, and otherwise schedules exactly the comparison of element index+1 - by induction the result is the lexicographic order" timeout=900 replay=cmp_arrays
+    //@harness props=C08,C01,C10,C17 quickfor=C08,C10,C17 strength=proof clause="ordering of two arrays of ANY lengths (step at ANY index, after elements 0..index compared equal so far): a non-equal element decides with that ordering and schedules nothing (later elements are never evaluated); an equal element decides equal / less / greater when it was the last of both / of the left only / of the right only, and otherwise schedules exactly the comparison of element index+1 - by induction the result is the lexicographic order" timeout=900 replay=cmp_arrays
     #[kani::proof]
     #[kani::unwind(8)]
     fn compare_array_step_contract() {
@@ -314,18 +521,18 @@ mod vharness {
         e.arm_compare_array(ArrayData::alloc(1, la).view(), ArrayData::alloc(2, lb).view(), index);
         assert!(e.value_stack.is_empty() && e.bool_stack.is_empty(), "C08,C01:cmp:compare-stack-effect");
         if k != 1 {
-            assert!(e.state_stack.is_empty() && e.cmp_ord_stack.len() == 1 && e.cmp_ord_stack[0] == item, "C08:cmp:first-differing-element-decides-and-nothing-later-is-evaluated");
+            assert!(e.state_stack.is_empty() && e.cmp_ord_stack.len() == 1 && e.cmp_ord_stack[0] == item, "C08,C17:cmp:first-differing-element-decides-and-nothing-later-is-evaluated");
         } else if index + 1 == la || index + 1 == lb {
             let want = if index + 1 == la && index + 1 == lb { Ordering::Equal } else if index + 1 == la { Ordering::Less } else { Ordering::Greater };
-            assert!(e.state_stack.is_empty() && e.cmp_ord_stack.len() == 1 && e.cmp_ord_stack[0] == want, "C08:cmp:a-proper-prefix-is-less");
+            assert!(e.state_stack.is_empty() && e.cmp_ord_stack.len() == 1 && e.cmp_ord_stack[0] == want, "C08,C17:cmp:a-proper-prefix-is-less");
         } else {
-            assert!(e.cmp_ord_stack.is_empty() && scheduled_element(&e, 0, index + 1, true), "C08:cmp:next-elements-are-compared-next");
+            assert!(e.cmp_ord_stack.is_empty() && scheduled_element(&e, 0, index + 1, true), "C08,C17:cmp:next-elements-are-compared-next");
             assert!(e.stack_trace_len == 1, "C10:cmp:trace-item-is-counted");
         }
         core::mem::forget(e);
     }
 
-    //@harness props=C08,C01,C10 strength=proof clause="equality of two arrays of ANY lengths (entry): different lengths => false; both empty => true; otherwise exactly: evaluate and compare element 0, continue with EqualsArray at index 0" timeout=900 replay=cmp_arrays
+    //@harness props=C08,C01,C10 quickfor=C08,C10,C17 strength=proof clause="equality of two arrays of ANY lengths (entry): different lengths => false; both empty => true; otherwise exactly: evaluate and compare element 0, continue with EqualsArray at index 0" timeout=900 replay=cmp_arrays
     #[kani::proof]
     #[kani::unwind(8)]
     fn equals_array_entry_contract() {
@@ -341,7 +548,7 @@ mod vharness {
         core::mem::forget(e);
     }
 
-    //@harness props=C08,C01,C10 strength=proof clause="equality of two arrays of the same length (step at ANY index): a false element result decides false and schedules nothing; a true result at the last index is the final answer; a true result elsewhere schedules exactly the comparison of element index+1 - by induction the result is 'all elements equal'" timeout=900 replay=cmp_arrays
+    //@harness props=C08,C01,C10 quickfor=C08,C10,C17 strength=proof clause="equality of two arrays of the same length (step at ANY index): a false element result decides false and schedules nothing; a true result at the last index is the final answer; a true result elsewhere schedules exactly the comparison of element index+1 - by induction the result is 'all elements equal'" timeout=900 replay=cmp_arrays
     #[kani::proof]
     #[kani::unwind(8)]
     fn equals_array_step_contract() {
@@ -375,7 +582,7 @@ mod vharness {
     }
     fn vis(f: Option<V>) -> bool { matches!(f, Some(V::Default) | Some(V::ForceVisible)) }
 
-    //@harness props=C08,C01,C10 strength=bounded bound="objects over two field names (ids 1, 2), all 4^4 combinations of absent / : / :: / :::" clause="equality of two objects (entry), objects over TWO field names, every combination of absent / : / :: / ::: on each side (three names exhausted CBMC's memory: measured): false exactly when their sets of VISIBLE field names differ - hidden fields never take part and are never looked up; both without visible fields => true; otherwise the first visible field (in name order) of BOTH objects is evaluated and compared next, the remaining visible names are queued in order, the assertions of both objects are scheduled, one trace item is counted" timeout=900 replay=cmp_objects
+    //@harness props=C08,C01,C10 quickfor=C08,C10,C17 strength=bounded bound="objects over two field names (ids 1, 2), all 4^4 combinations of absent / : / :: / :::" clause="equality of two objects (entry), objects over TWO field names, every combination of absent / : / :: / ::: on each side (three names exhausted CBMC's memory: measured): false exactly when their sets of VISIBLE field names differ - hidden fields never take part and are never looked up; both without visible fields => true; otherwise the first visible field (in name order) of BOTH objects is evaluated and compared next, the remaining visible names are queued in order, the assertions of both objects are scheduled, one trace item is counted" timeout=900 replay=cmp_objects
     #[kani::proof]
     #[kani::unwind(8)]
     fn equals_object_entry_contract() {
@@ -412,7 +619,7 @@ mod vharness {
         core::mem::forget(e);
     }
 
-    //@harness props=C08,C01,C10 strength=proof clause="equality of two objects (step, ANY queue of up to three remaining visible names that exist in both objects): an empty queue leaves the last field's result as the answer; a false field result decides false and schedules nothing (later fields are never evaluated); a true result schedules exactly the comparison of the next queued field of both objects, with one trace item counted - by induction the result is 'all visible fields equal'" timeout=900 replay=cmp_objects
+    //@harness props=C08,C01,C10 quickfor=C08,C10,C17 strength=proof clause="equality of two objects (step, ANY queue of up to three remaining visible names that exist in both objects): an empty queue leaves the last field's result as the answer; a false field result decides false and schedules nothing (later fields are never evaluated); a true result schedules exactly the comparison of the next queued field of both objects, with one trace item counted - by induction the result is 'all visible fields equal'" timeout=900 replay=cmp_objects
     #[kani::proof]
     #[kani::unwind(8)]
     fn equals_object_step_contract() {
@@ -439,7 +646,7 @@ mod vharness {
         core::mem::forget(e);
     }
 
-    //@harness props=C08,C01,C10 strength=proof expect=fail clause="canary"
+    //@harness props=C08,C01,C10 quickfor=C08,C10,C17 strength=proof expect=fail clause="canary"
     #[kani::proof]
     #[kani::unwind(8)]
     fn cmp_canary() {
